@@ -8,4 +8,4 @@ import (
 )
 
 func jsonUnmarshal(b []byte, v interface{}) error { return json.Unmarshal(b, v) }
-func uintptrOf(n *msggen.Node) uintptr           { return uintptr(unsafe.Pointer(n)) }
+func uintptrOf(n *msggen.Node) uintptr            { return uintptr(unsafe.Pointer(n)) }
